@@ -7,4 +7,5 @@ git -C /repo diff --quiet || { echo "/repo has uncommitted changes"; exit 9; }
 git -C /repo apply /verif/seeded/$seed/patch.diff || { echo "patch does not apply"; exit 9; }
 for p in "$@"; do ./check $p --tier quick; echo "seed=$seed property=$p rc=$?"; done
 git -C /repo checkout -- .
-for p in "$@"; do ./check $p --tier quick > /dev/null 2>&1; echo "restored tree: property=$p rc=$?"; done
+# (RUN_SEED_NORESTORE=1: the caller re-runs every check on the restored tree itself, as tools/run_all_seeds.sh does at its end)
+[ -n "$RUN_SEED_NORESTORE" ] || for p in "$@"; do ./check $p --tier quick > /dev/null 2>&1; echo "restored tree: property=$p rc=$?"; done
